@@ -96,7 +96,7 @@ pub fn has_odd_width_char(src: &str) -> bool {
 
 pub fn text_panic_sig(src: &str, loc: &str, msg: &str) -> String {
     let mut sig = panic_sig(loc, msg);
-    if sig.contains(":source_slice:") && has_odd_width_char(src) {
+    if sig.contains(":source_slice") && has_odd_width_char(src) {
         // known: the formatter turns display columns into byte offsets
         sig.push_str(":odd-width-char-input");
     }
